@@ -144,6 +144,168 @@ fn thread_sched_ns() -> Option<(u64, u64)> {
     Some((run, wait))
 }
 
+// ---- configuration routes ------------------------------------------------------------------
+
+/// Every `pub fn …(self …)` helper of `impl KotoSettings` (crates/koto/src/koto.rs). The harness
+/// compares this table with the source on every run (`K:C08:settings-helper-table`).
+const SETTINGS_HELPERS: &[&str] = &[
+    "inherit_args",
+    "inherit_io",
+    "with_execution_limit",
+    "with_args",
+    "with_stdin",
+    "with_stdout",
+    "with_stderr",
+    "with_module_imported_callback",
+];
+
+fn apply_helper(s: KotoSettings, helper: &str, limit: Duration) -> Option<KotoSettings> {
+    use koto::runtime::{UnavailableStderr, UnavailableStdin, UnavailableStdout};
+    Some(match helper {
+        "inherit_args" => s.inherit_args(),
+        "inherit_io" => s.inherit_io(),
+        "with_execution_limit" => s.with_execution_limit(limit),
+        "with_args" => s.with_args(["a", "b"]),
+        "with_stdin" => s.with_stdin(UnavailableStdin::default()),
+        "with_stdout" => s.with_stdout(UnavailableStdout::default()),
+        "with_stderr" => s.with_stderr(UnavailableStderr::default()),
+        "with_module_imported_callback" => s.with_module_imported_callback(|_p: &std::path::Path| {}),
+        _ => return None,
+    })
+}
+
+const ROUTE_SPIN: &str = "i = 0\nloop\n  i += 1\n";
+
+/// `route <name> <limit_ms>`: configure the limit through the named public route, run a short spin,
+/// → `<outcome>|<elapsed_us>|<runqueue_wait_us>`. Route names:
+/// `chain:<h1>,<h2>,…` (KotoSettings::default() followed by the helpers in that order),
+/// `literal`, `literal-no-tests`, `vm-direct`, `compile-then-run`, `args-path`, `args-no-type-checks`,
+/// `args-export-top-level`, `exported-function`, `call-function`, `main`, `test`, `value-to-string`,
+/// `second-run`.
+fn worker_route(name: &str, limit_ms: u64) -> String {
+    let limit = Duration::from_millis(limit_ms);
+    let vm_settings = || KotoVmSettings { execution_limit: Some(limit), ..Default::default() };
+    let chained = || KotoSettings::default().with_execution_limit(limit);
+    let sched0 = thread_sched_ns();
+    let t0 = Instant::now();
+    let r: Result<Result<String, String>, String> = kvh::catch(|| -> Result<String, String> {
+        let show = |r: koto::Result<KValue>| r.map(|v| kvh::canon::value(&v)).map_err(|e| e.to_string());
+        if let Some(list) = name.strip_prefix("chain:") {
+            let mut s = KotoSettings::default();
+            for h in list.split(',') {
+                s = apply_helper(s, h, limit).ok_or_else(|| format!("unknown-helper {}", h))?;
+            }
+            return show(Koto::with_settings(s).compile_and_run(ROUTE_SPIN));
+        }
+        match name {
+            "literal" => show(Koto::with_settings(KotoSettings { run_tests: true, vm_settings: vm_settings() }).compile_and_run(ROUTE_SPIN)),
+            "literal-no-tests" => show(Koto::with_settings(KotoSettings { run_tests: false, vm_settings: vm_settings() }).compile_and_run(ROUTE_SPIN)),
+            "vm-direct" => {
+                let mut vm = KotoVm::with_settings(vm_settings());
+                let mut loader = koto::bytecode::ModuleLoader::default();
+                let chunk = loader.compile_script(ROUTE_SPIN, None, Default::default()).map_err(|e| e.to_string())?;
+                vm.run(chunk).map(|v| kvh::canon::value(&v)).map_err(|e| e.to_string())
+            }
+            "compile-then-run" => {
+                let mut k = Koto::with_settings(chained());
+                let chunk = k.compile(ROUTE_SPIN).map_err(|e| e.to_string())?;
+                show(k.run(chunk))
+            }
+            "args-path" => show(Koto::with_settings(chained()).compile_and_run(CompileArgs::new(ROUTE_SPIN).script_path("/tmp/c08-route.koto"))),
+            "args-no-type-checks" => show(Koto::with_settings(chained()).compile_and_run(CompileArgs::new(ROUTE_SPIN).enable_type_checks(false))),
+            "args-export-top-level" => show(Koto::with_settings(chained()).compile_and_run(CompileArgs::new(ROUTE_SPIN).export_top_level_ids(true))),
+            "exported-function" => {
+                let mut k = Koto::with_settings(chained());
+                k.compile_and_run("export spin = ||\n  loop\n    x = 1\n").map_err(|e| e.to_string())?;
+                show(k.call_exported_function("spin", &[]))
+            }
+            "call-function" => {
+                let mut k = Koto::with_settings(chained());
+                let f = k.compile_and_run("||\n  loop\n    x = 1\n").map_err(|e| e.to_string())?;
+                show(k.call_function(f, &[]))
+            }
+            "main" => show(Koto::with_settings(chained()).compile_and_run("export @main = ||\n  loop\n    x = 1\n")),
+            "test" => show(Koto::with_settings(chained()).compile_and_run("@test spin = ||\n  loop\n    x = 1\n")),
+            "value-to-string" => {
+                let mut k = Koto::with_settings(chained());
+                let m = k.compile_and_run("m =\n  @display: ||\n    loop\n      x = 1\nm").map_err(|e| e.to_string())?;
+                k.value_to_string(m).map_err(|e| e.to_string())
+            }
+            "second-run" => {
+                let mut k = Koto::with_settings(chained());
+                k.compile_and_run("1 + 1").map_err(|e| e.to_string())?;
+                show(k.compile_and_run(ROUTE_SPIN))
+            }
+            _ => Err("unknown-route".into()),
+        }
+    });
+    let el = t0.elapsed();
+    let wait_us = match (sched0, thread_sched_ns()) {
+        (Some(a), Some(b)) => b.1.saturating_sub(a.1) / 1000,
+        _ => 0,
+    };
+    let out = match r {
+        Ok(Ok(v)) => format!("ok:{}", kvh::hex(v.as_bytes())),
+        Ok(Err(m)) if m.contains("execution timed out") => "timeout".to_string(),
+        Ok(Err(m)) => format!("err:{}", kvh::hex(m.lines().next().unwrap_or("").as_bytes())),
+        Err(p) => format!("panic:{}", kvh::hex(p.as_bytes())),
+    };
+    format!("{}|{}|{}", out, el.as_micros(), wait_us)
+}
+
+/// the route names of a run (every helper before and after the limit, whole chains in several
+/// orders; in the thorough tier every ordered pair around the limit)
+fn route_names(thorough: bool) -> Vec<String> {
+    let others: Vec<&str> = SETTINGS_HELPERS.iter().copied().filter(|h| *h != "with_execution_limit").collect();
+    let mut v = vec!["chain:with_execution_limit".to_string()];
+    for h in &others {
+        v.push(format!("chain:with_execution_limit,{}", h));
+        v.push(format!("chain:{},with_execution_limit", h));
+    }
+    let all = others.join(",");
+    let rev = others.iter().rev().copied().collect::<Vec<_>>().join(",");
+    v.push(format!("chain:with_execution_limit,{}", all));
+    v.push(format!("chain:{},with_execution_limit", all));
+    v.push(format!("chain:with_execution_limit,{}", rev));
+    v.push(format!("chain:{},with_execution_limit", rev));
+    let mid = others.len() / 2;
+    v.push(format!("chain:{},with_execution_limit,{}", others[..mid].join(","), others[mid..].join(",")));
+    if thorough {
+        for a in &others {
+            for b in &others {
+                v.push(format!("chain:{},with_execution_limit,{}", a, b));
+                v.push(format!("chain:with_execution_limit,{},{}", a, b));
+            }
+        }
+    }
+    for r in ["literal", "literal-no-tests", "vm-direct", "compile-then-run", "args-path", "args-no-type-checks", "args-export-top-level",
+              "exported-function", "call-function", "main", "test", "value-to-string", "second-run"] {
+        v.push(r.to_string());
+    }
+    v
+}
+
+/// `pub fn <name>(self …` inside `impl KotoSettings { … }` of the koto crate's source
+fn settings_helpers_in_source() -> Option<Vec<String>> {
+    let repo = std::env::var("KOTO_REPO").unwrap_or("/repo".into());
+    let src = std::fs::read_to_string(format!("{}/crates/koto/src/koto.rs", repo)).ok()?;
+    let start = src.find("impl KotoSettings {")?;
+    let end = src[start..].find("impl Default for KotoSettings").map(|e| start + e).unwrap_or(src.len());
+    let body = &src[start..end];
+    let mut v = vec![];
+    let mut rest = body;
+    while let Some(i) = rest.find("pub fn ") {
+        let after = &rest[i + 7..];
+        let name: String = after.chars().take_while(|c| c.is_alphanumeric() || *c == '_').collect();
+        let sig_end = after.find('{').unwrap_or(after.len());
+        if after[..sig_end].contains("self") {
+            v.push(name);
+        }
+        rest = &after[1..];
+    }
+    Some(v)
+}
+
 /// `h4 <limit_ms> <max_calls> <work_per_call>` → `c,t,i,to,tp;…`
 fn worker_h4(limit_ms: u64, max_calls: usize, work: usize) -> String {
     let snaps = koto_runtime::verif_timeout_probe(Duration::from_millis(limit_ms), max_calls, work);
@@ -170,6 +332,7 @@ fn worker_main() {
             }
             ["h4", lim, maxc, work] => worker_h4(lim.parse().unwrap(), maxc.parse().unwrap(), work.parse().unwrap()),
             ["rate"] => (if cfg!(debug_assertions) { "debug" } else { "release" }).to_string(),
+            ["route", name, lim] => worker_route(name, lim.parse().unwrap_or(30)),
             _ => "bad-request".to_string(),
         }
     });
@@ -228,6 +391,18 @@ enum Layer {
     SortLess,
     /// key function of `list.sort`
     SortKey,
+    // consumers that IGNORE the values they pull (`for _ in …`, `_` positions of an unpacking,
+    // `consume()`): the VM takes other paths for them (no result register, IterNextQuiet); an error
+    // coming out of the iterator's step — a timeout included — must not be dropped with the value
+    GenForIgnore,
+    GenUnpackIgnore,
+    GenConsume,
+    EachForIgnore,
+    EachUnpackIgnore,
+    EachConsume,
+    KeepForIgnore,
+    MetaNextForIgnore,
+    MetaNextUnpackIgnore,
 }
 
 const SAME_ENTRY: &[Layer] = &[
@@ -265,6 +440,15 @@ const NESTED_ENTRY: &[Layer] = &[
     Layer::MetaNextNative,
     Layer::SortLess,
     Layer::SortKey,
+    Layer::GenForIgnore,
+    Layer::GenUnpackIgnore,
+    Layer::GenConsume,
+    Layer::EachForIgnore,
+    Layer::EachUnpackIgnore,
+    Layer::EachConsume,
+    Layer::KeepForIgnore,
+    Layer::MetaNextForIgnore,
+    Layer::MetaNextUnpackIgnore,
 ];
 
 impl Layer {
@@ -513,6 +697,8 @@ fn render(shape: &Shape, k: usize, d: usize, out: &mut Vec<String>, mods: &mut V
         | Layer::DebugInTuple
         | Layer::MetaNextNative
         | Layer::SortLess
+        | Layer::MetaNextForIgnore
+        | Layer::MetaNextUnpackIgnore
         | Layer::MetaNext => {
             let (key, args, tail, usage): (&str, &str, String, String) = match shape.layers[k] {
                 Layer::MetaCall => ("@call", "||", format!("{id}"), format!("z{id} = o{id}()")),
@@ -530,6 +716,8 @@ fn render(shape: &Shape, k: usize, d: usize, out: &mut Vec<String>, mods: &mut V
                 Layer::MetaNext => ("@next", "||", "null".into(), format!("for v{id} in o{id}\n{q}()")),
                 Layer::MetaIteratorNative => ("@iterator", "||", "(1, 2)".into(), format!("z{id} = iterator.count o{id}")),
                 Layer::MetaNextNative => ("@next", "||", "null".into(), format!("z{id} = iterator.count o{id}")),
+                Layer::MetaNextForIgnore => ("@next", "||", "null".into(), format!("for _ in o{id}\n{q}()")),
+                Layer::MetaNextUnpackIgnore => ("@next", "||", "null".into(), format!("_, u{id} = o{id}")),
                 Layer::SortLess => ("@<", "|rhs|", "true".into(), format!("z{id} = [o{id}, o{id}, o{id}, o{id}, o{id}, o{id}].sort()")),
                 Layer::DisplayInList => ("@display", "||", "'d'".into(), format!("z{id} = \"<{{[o{id}]}}>\"")),
                 Layer::DisplayInMap => ("@display", "||", "'d'".into(), format!("w{id} = {{a: o{id}}}\nz{id} = \"<{{w{id}}}>\"")),
@@ -541,6 +729,21 @@ fn render(shape: &Shape, k: usize, d: usize, out: &mut Vec<String>, mods: &mut V
             render(shape, k + 1, d + 2, out, mods);
             out.push(format!("{r}{tail}"));
             for l in usage.split('\n') {
+                out.push(format!("{p}{l}"));
+            }
+        }
+        Layer::EachForIgnore | Layer::KeepForIgnore | Layer::EachUnpackIgnore | Layer::EachConsume => {
+            let (head, tail, close): (String, &str, String) = match shape.layers[k] {
+                Layer::EachForIgnore => ("for _ in (1, 2).each(|x|".into(), "x", format!(")\n{q}()")),
+                Layer::KeepForIgnore => ("for _ in (1, 2).keep(|x|".into(), "true", format!(")\n{q}()")),
+                Layer::EachUnpackIgnore => (format!("_, u{id} = (1, 2).each(|x|"), "x", ")".into()),
+                Layer::EachConsume => ("(1, 2).each(|x|".into(), "x", ").consume()".into()),
+                _ => unreachable!(),
+            };
+            out.push(format!("{p}{head}"));
+            render(shape, k + 1, d + 1, out, mods);
+            out.push(format!("{q}{tail}"));
+            for l in close.split('\n') {
                 out.push(format!("{p}{l}"));
             }
         }
@@ -567,15 +770,22 @@ fn render(shape: &Shape, k: usize, d: usize, out: &mut Vec<String>, mods: &mut V
             mods.push((format!("m{id}"), m.join("\n") + "\n"));
             out.push(format!("{p}import m{id}"));
         }
-        Layer::GenFor | Layer::GenNext => {
+        Layer::GenFor | Layer::GenNext | Layer::GenForIgnore | Layer::GenUnpackIgnore | Layer::GenConsume => {
             out.push(format!("{p}g{id} = ||"));
             render(shape, k + 1, d + 1, out, mods);
             out.push(format!("{q}yield {id}"));
-            if shape.layers[k] == Layer::GenFor {
-                out.push(format!("{p}for v{id} in g{id}()"));
-                out.push(format!("{q}()"));
-            } else {
-                out.push(format!("{p}z{id} = g{id}().next()"));
+            match shape.layers[k] {
+                Layer::GenFor => {
+                    out.push(format!("{p}for v{id} in g{id}()"));
+                    out.push(format!("{q}()"));
+                }
+                Layer::GenForIgnore => {
+                    out.push(format!("{p}for _ in g{id}()"));
+                    out.push(format!("{q}()"));
+                }
+                Layer::GenUnpackIgnore => out.push(format!("{p}_, u{id} = g{id}()")),
+                Layer::GenConsume => out.push(format!("{p}g{id}().consume()")),
+                _ => out.push(format!("{p}z{id} = g{id}().next()")),
             }
         }
     }
@@ -1313,6 +1523,19 @@ fn main() {
             if bad {
                 cx.rep.violation("D", "C08:replay", json!({"script": script, "script_hex": hexs, "limit_ms": limit, "result": res_json(&r)}));
             }
+        } else if let Some(route) = d["route"].as_str() {
+            let limit = d["limit_ms"].as_u64().unwrap_or(30);
+            let mut w = Worker::spawn(&worker_args());
+            let r = w.request(&format!("route {} {}", route, limit), Duration::from_millis(limit + 5000));
+            let txt = match &r {
+                Reply::Ok(s) => s.clone(),
+                Reply::Timeout => "killed: still running 5 s after the limit".to_string(),
+                Reply::Died(s) => format!("worker died {}", s),
+            };
+            println!("route {} limit_ms {} -> {}", route, limit, txt);
+            if !txt.starts_with("timeout|") {
+                cx.rep.violation("D", "C08:limit-not-in-force", json!({"route": route, "limit_ms": limit, "worker_reply": txt}));
+            }
         } else if let Some(req) = d["trace_request"].as_str() {
             let model = cx.drv.ask(req);
             let imp = d["impl_trace"].as_str().unwrap_or("").to_string();
@@ -1463,6 +1686,7 @@ fn main() {
         for (name, script, limit, expect) in file_cases(dir) {
             let id = match expect.as_str() {
                 "late" => "F-C08-2",
+                "late-slow-instruction" => "F-C08-6",
                 "late-recursion" => "F-C08-5",
                 _ => "",
             };
@@ -1471,7 +1695,8 @@ fn main() {
     }
     {
         let results = pool_run(n_workers, &fixed_witnesses, |w, (_, script, limit, kind)| {
-            let kill = if kind.starts_with("late") { 30_000 } else { 8 * limit + 10_000 };
+            // kind `hang`: the listed signature is "never returns" (killed after 100 × limit + 1 s)
+            let kill = if kind == "hang" { 100 * limit + 1000 } else if kind.starts_with("late") { 30_000 } else { 8 * limit + 10_000 };
             let r = run_in(w, *limit, script, kill);
             // a too-slow run is repeated once (after a pause: load bursts of concurrent builds)
             match &r {
@@ -1504,8 +1729,9 @@ fn main() {
                 if fails {
                     cx.viol_d("C08:corpus", json!({"script": script, "script_hex": kvh::hex(script.as_bytes()), "limit_ms": limit, "result": res_json(r), "what": what}));
                 }
-            } else if cx.is_open(&id) && !matches!(r, RunRes::Done(_)) {
-                // a hang is not the signature of a listed finding (swallowed / late but delivered)
+            } else if cx.is_open(&id) && !matches!(r, RunRes::Done(_)) && !(kind == "hang" && matches!(r, RunRes::Killed(_))) {
+                // a hang is not the signature of a listed finding (swallowed / late but delivered),
+                // unless the entry's witness kind says so
                 cx.viol_d("C08:no-timeout", json!({"script": script, "script_hex": kvh::hex(script.as_bytes()), "limit_ms": limit, "result": res_json(r), "what": what}));
             } else if cx.is_open(&id) {
                 if fails {
@@ -1613,6 +1839,63 @@ fn main() {
                     }
                 }
                 _ => cx.viol_d("C08:terminating-differs", json!({"what": "a terminating script hung or killed the worker", "detail": detail})),
+            }
+        }
+    }
+
+    // ---- the limit is in force through every public configuration route ------------------------------
+    {
+        match settings_helpers_in_source() {
+            Some(found) => {
+                let mut a: Vec<String> = found.clone();
+                a.sort();
+                let mut b: Vec<String> = SETTINGS_HELPERS.iter().map(|x| x.to_string()).collect();
+                b.sort();
+                if a != b {
+                    cx.viol_k("K:C08:settings-helper-table", json!({"what": "the helpers of `impl KotoSettings` in crates/koto/src/koto.rs differ from the table the route check enumerates (SETTINGS_HELPERS in c08.rs): extend the table and apply_helper", "in_source": a, "in_table": b}));
+                }
+                cx.rep.extra.insert("settings_helpers_checked".into(), json!(found));
+            }
+            None => cx.viol_k("K:C08:settings-helper-table", json!({"what": "cannot read `impl KotoSettings` from crates/koto/src/koto.rs (set KOTO_REPO if the sources are not in /repo)"})),
+        }
+        let routes = route_names(thorough);
+        let route_limit: u64 = 30;
+        let results = pool_run(n_workers, &routes, |w, name| {
+            let ask = |w: &mut Worker| w.request(&format!("route {} {}", name, route_limit), Duration::from_millis(route_limit + slack_ms(route_limit) * 3 + 4000));
+            let mut r = ask(w);
+            if let Reply::Ok(s) = &r {
+                let f: Vec<&str> = s.split('|').collect();
+                let slow = f.len() == 3 && f[1].parse::<u64>().unwrap_or(0).saturating_sub(f[2].parse::<u64>().unwrap_or(0)) > (route_limit + slack_ms(route_limit)) * 1000;
+                if slow {
+                    std::thread::sleep(Duration::from_millis(500));
+                    r = ask(w);
+                }
+            }
+            r
+        });
+        for (name, r) in routes.iter().zip(results.iter()) {
+            cx.rep.case(&format!("route {} {}", name, route_limit), name.contains(','));
+            cx.rep.bump("family=config-route");
+            let detail = |what: String, raw: String| json!({"route": name, "limit_ms": route_limit, "what": what, "worker_reply": raw, "script": ROUTE_SPIN});
+            match r {
+                Reply::Ok(s) => {
+                    let f: Vec<&str> = s.split('|').collect();
+                    let (el, wait) = (f.get(1).and_then(|x| x.parse::<u64>().ok()).unwrap_or(0), f.get(2).and_then(|x| x.parse::<u64>().ok()).unwrap_or(0));
+                    if f.len() != 3 || f[0] != "timeout" {
+                        let txt = f[0].split_once(':').and_then(|(_, h)| kvh::unhex(h)).map(|b| String::from_utf8_lossy(&b).to_string()).unwrap_or(f[0].to_string());
+                        if txt.contains("unknown-route") || txt.contains("unknown-helper") {
+                            cx.viol_k("K:C08:settings-helper-table", detail("the worker does not know this route/helper".into(), s.clone()));
+                        } else {
+                            cx.viol_d("C08:limit-not-in-force", detail(format!("a spinning script did not end with the timeout error although the limit was configured through this route: {}", txt), s.clone()));
+                        }
+                    } else if el < route_limit * 1000 {
+                        cx.viol_d("C08:early-timeout", detail("timeout before the limit had elapsed".into(), s.clone()));
+                    } else if el.saturating_sub(wait) > (route_limit + slack_ms(route_limit)) * 1000 {
+                        cx.viol_d("C08:late-timeout", detail("timeout later than limit + slack (twice)".into(), s.clone()));
+                    }
+                }
+                Reply::Timeout => cx.viol_d("C08:limit-not-in-force", detail("the spinning script was still running seconds after the limit: the execution limit configured through this route is not in force (killed)".into(), "killed".into())),
+                Reply::Died(st) => cx.viol_d("C08:worker-died", detail("worker died".into(), st.clone())),
             }
         }
     }
